@@ -140,6 +140,36 @@ theorem varOf_ok (nonStrict : Bool) (sa se dt df nm : Option Str) (rg : Option (
         simp only [hs, Except.ok.injEq] at h
         rw [← h]
 
+/-- the evented flag from the two notations: the attribute wins, only `yes` is true -/
+def eventedOf (sa se : Option Str) : Bool :=
+  match sa with
+  | some a => a == ['y', 'e', 's']
+  | none => match se with
+      | some e => e == ['y', 'e', 's']
+      | none => false
+
+/-- what `varOf` puts into the variable, field by field -/
+theorem varOf_fields (nonStrict : Bool) (sa se df nm : Option Str) (dt : Str) (row : TypeRow)
+    (rg : Option (Option Str × Option Str)) (al : Option (List (Option Str))) (m : VarM F)
+    (hrow : tb.row? dt = some row) (h : varOf fo tb nonStrict sa se (some dt) df nm rg al = .ok m) :
+    m.name = stripWs (nm.getD []) ∧ m.dataType = dt
+    ∧ m.sendEvents = eventedOf sa se
+    ∧ m.min = R.ofExcept (optM (coercePython fo tb row) (rg.bind (·.1)))
+    ∧ m.max = R.ofExcept (optM (coercePython fo tb row) (rg.bind (·.2)))
+    ∧ m.allowed = R.ofExcept (mapM' (coercePython fo tb row) ((al.map (allowedTexts (row.ty == .str))).getD []))
+    ∧ m.default = R.ofExcept (optM (coercePython fo tb row) df) := by
+  unfold varOf at h
+  simp only [hrow] at h
+  cases hs : mkSchema fo tb row (!nonStrict)
+      { range := rg, allowed := al.map (allowedTexts (row.ty == .str)), default := df } with
+  | error e => simp [hs] at h
+  | ok sc =>
+    simp only [hs, Except.ok.injEq] at h
+    rw [← h]
+    refine ⟨rfl, rfl, ?_, rfl, rfl, rfl, rfl⟩
+    unfold eventedOf
+    cases sa <;> cases se <;> rfl
+
 theorem mirrorVar_name (nonStrict : Bool) (v : VarSpec) (m : VarM F)
     (h : mirrorVar fo tb nonStrict v = .ok m) : m.name = stripWs (v.name.getD []) :=
   varOf_ok fo tb nonStrict _ _ _ _ _ _ _ m h
